@@ -478,11 +478,32 @@ func (c *Ctx) prodRow(fn *ssa.Function, p *Path, wrapper *ssa.Function) *ProdRow
 		case "cmp":
 			// <elem>.(lex.Token).Typ ⋈ const
 			src, se := c.resolveE(a.Src, ae)
+			for {
+				u, isNot := src.(*ssa.UnOp)
+				if !isNot || u.Op != token.NOT {
+					break
+				}
+				src, se = c.resolveE(u.X, se)
+			}
+			var l ssa.Value
+			var le *env
 			if bo, ok := src.(*ssa.BinOp); ok {
-				l, le := c.resolveE(bo.X, se)
+				l, le = c.resolveE(bo.X, se)
 				if _, isC := l.(*ssa.Const); isC {
 					l, le = c.resolveE(bo.Y, se)
 				}
+			} else if call, ok := src.(*ssa.Call); ok {
+				// an (in)equality derived from a membership test in a list of constants
+				if _, subj, sse, ok := c.membershipCall(call, se); ok {
+					l, le = subj, sse
+				}
+			} else if ex, ok := src.(*ssa.Extract); ok {
+				// … or from a comma-ok lookup in a small table of constants
+				if lk, ok := ex.Tuple.(*ssa.Lookup); ok && lk.CommaOk {
+					l, le = c.resolveE(lk.Index, se)
+				}
+			}
+			if l != nil {
 				if base, field := fieldLoad(c, l, le); base != nil && field == "Typ" {
 					if i, fe, _, ok := c.elemRef(base, le, window); ok {
 						if fe && int(i) > maxFromEnd {
@@ -571,6 +592,49 @@ func (c *Ctx) prodRow(fn *ssa.Function, p *Path, wrapper *ssa.Function) *ProdRow
 							row.Err = "prefix pass-through in an exact-length production"
 						}
 					}
+				}
+			}
+		}
+	}
+	if sl, ok := out.(*ssa.Slice); ok && lit == nil && c.resolve(sl.X, oe) == window && sl.Low == nil && sl.High != nil {
+		// written in place: elems[len-k] = node; return elems[:len-k+1] — the same result as truncating to
+		// len-k and appending the node (the append would reuse the same backing array)
+		lenMinus := func(v ssa.Value) (int64, bool) {
+			base, off := c.linear(v)
+			if call, ok := base.(*ssa.Call); ok {
+				if bi, ok := call.Call.Value.(*ssa.Builtin); ok && bi.Name() == "len" && c.resolve(call.Call.Args[0], oe) == window {
+					return -off, true
+				}
+			}
+			return 0, false
+		}
+		if d, ok := lenMinus(sl.High); ok && d >= 0 {
+			var stored []ssa.Value
+			okStores := true
+			for _, in := range p.Instrs {
+				st, isSt := in.(*ssa.Store)
+				if !isSt {
+					continue
+				}
+				ia, isIA := st.Addr.(*ssa.IndexAddr)
+				if !isIA || c.resolve(ia.X, oe) != window {
+					continue
+				}
+				if k, ok := lenMinus(ia.Index); ok && k == d+1 {
+					stored = append(stored, st.Val)
+				} else {
+					okStores = false
+				}
+			}
+			if okStores && len(stored) == 1 {
+				lit = stored
+				litEnv = oe
+				row.OutLen = 1
+				if int(d)+1 != row.Suffix && !row.Exact {
+					row.Err = fmt.Sprintf("suffix production keeps elems[:len-%d] and overwrites the element before it but matched %d trailing positions", d, row.Suffix)
+				}
+				if row.Exact {
+					row.Err = "prefix pass-through in an exact-length production"
 				}
 			}
 		}
